@@ -43,3 +43,21 @@ proof fn lemma_propagation_keeps_types_upto(o: ast::Interface, n: ast::Interface
         assert(element_propagated(o.elements@[k - 1], n.elements@[k - 1], o.oneway));
     }
 }
+
+// ... nor the kind of any type node, in the walker's order (so `resolved` speaks about the returned tree)
+broadcast proof fn lemma_propagation_keeps_kinds(o: ast::Interface, n: ast::Interface)
+    requires #[trigger] oneway_propagated(o, n)
+    ensures kpre_iface(n.elements@, n.elements@.len() as int) == kpre_iface(o.elements@, o.elements@.len() as int)
+{
+    lemma_propagation_keeps_kinds_upto(o, n, o.elements@.len() as int);
+}
+proof fn lemma_propagation_keeps_kinds_upto(o: ast::Interface, n: ast::Interface, k: int)
+    requires oneway_propagated(o, n), 0 <= k <= o.elements@.len()
+    ensures kpre_iface(n.elements@, k) == kpre_iface(o.elements@, k)
+    decreases k
+{
+    if k > 0 {
+        lemma_propagation_keeps_kinds_upto(o, n, k - 1);
+        assert(element_propagated(o.elements@[k - 1], n.elements@[k - 1], o.oneway));
+    }
+}
